@@ -704,7 +704,7 @@ func prefixReaderByHand(c *an.Ctx, ctor, read *ssa.Function) bool {
 					// the first emptiness test decides: it must be the one dominating the call
 					emptyAtCall := false
 					for _, g := range an.GuardsOf(call.Block()) {
-						if cmp, ok := an.CmpOf(g); ok && cmp.Is(token.EQL, isLenP, isZero) {
+						if cmp, ok := an.CmpOf(g); ok && (cmp.Is(token.EQL, isLenP, isZero) || cmp.Is(token.LEQ, isLenP, isZero)) {
 							emptyAtCall = true
 						}
 					}
